@@ -86,6 +86,8 @@ def classes():
             self.ev('on_subscribe')
 
         def on_next(self, value, is_complete=False):
+            if self.world.frozen:
+                return
             d, m = pl(value)
             self.ev('on_next', data=d, metadata=m, complete=bool(is_complete))
             self.count += 1
@@ -97,10 +99,14 @@ def classes():
                 raise AppError('subscriber %d raises' % self.uid)
 
         def on_complete(self):
+            if self.world.frozen:
+                return
             self.ev('on_complete')
             self.terminal = True
 
         def on_error(self, exception):
+            if self.world.frozen:
+                return
             self.ev('on_error', exc=repr(exception), exc_type=type(exception).__name__)
             self.terminal = True
 
@@ -148,10 +154,14 @@ def classes():
             subscriber.on_subscribe(self)
 
         def request(self, n):
+            if self.world.frozen:
+                return
             self.ev('pub_request', n=n)
             self.credit = min(MAXN, self.credit + n)
 
         def cancel(self):
+            if self.world.frozen:
+                return
             self.ev('pub_cancel')
             self.cancelled = True
             if self.cancel_raises:
@@ -256,5 +266,65 @@ def classes():
             cls = L['StreamFromAsyncGenerator']
         return cls(factory, on_cancel=lambda: ev('src_on_cancel'), on_complete=lambda: ev('src_on_complete'))
 
-    _lib.update(RecSubscriber=RecSubscriber, ManualPublisher=ManualPublisher, gen_source=gen_source)
+    def rx_source(world, side, uid, dirn, tag, els, end, version=4, backpressure=False, err_at=None,
+                  none_for_empty=False):
+        """observable_to_publisher over a recording plain observable or a back-pressure observable factory."""
+        if version == 4:
+            import reactivex as rxm
+            from reactivex.disposable import Disposable
+            from rsocket.reactivex import back_pressure_publisher as bp
+        else:
+            import rx as rxm
+            from rx.disposable import Disposable
+            from rsocket.rx_support import back_pressure_publisher as bp
+
+        def ev(kind, **kw):
+            return world.ev(side, kind, uid=uid, dir=dirn, run=1, **kw)
+
+        if not backpressure:
+            def on_subscribe(observer, scheduler=None):
+                ev('obs_subscribed')
+                for idx, lens in enumerate(els):
+                    if err_at is not None and idx == err_at:
+                        ev('hand_end', how='error')
+                        observer.on_error(AppError('observable %d failed' % uid))
+                        return Disposable(lambda: ev('obs_disposed'))
+                    d, m = payload_bytes(uid, tag, idx, lens)
+                    ev('hand', idx=idx, data=d, metadata=m, complete=False)
+                    observer.on_next(mk_payload(d, m, none_for_empty))
+                if end == 'error' or (err_at is not None and err_at >= len(els)):
+                    ev('hand_end', how='error')
+                    observer.on_error(AppError('observable %d failed' % uid))
+                elif end != 'none':
+                    ev('hand_end', how='complete')
+                    observer.on_completed()
+                return Disposable(lambda: ev('obs_disposed'))
+
+            return bp.observable_to_publisher(rxm.create(on_subscribe))
+
+        async def agen():
+            ev('gen_start')
+            try:
+                for idx, lens in enumerate(els):
+                    if err_at is not None and idx == err_at:
+                        ev('hand_end', how='error')
+                        raise AppError('generator %d failed' % uid)
+                    d, m = payload_bytes(uid, tag, idx, lens)
+                    ev('hand', idx=idx, data=d, metadata=m, complete=False)
+                    yield mk_payload(d, m, none_for_empty)
+                if end == 'error':
+                    ev('hand_end', how='error')
+                    raise AppError('generator %d failed' % uid)
+                ev('hand_end', how='complete')
+            finally:
+                ev('gen_finally')
+
+        def factory(feedback):
+            feedback.subscribe(on_next=lambda n: ev('feedback', n=n), on_completed=lambda: ev('feedback_completed'))
+            return bp.observable_from_async_generator(agen(), feedback)
+
+        return bp.observable_to_publisher(bp.from_observable_with_backpressure(factory))
+
+    _lib.update(RecSubscriber=RecSubscriber, ManualPublisher=ManualPublisher, gen_source=gen_source,
+                rx_source=rx_source)
     return _lib
